@@ -136,6 +136,21 @@ func (s *stepper) Begin(b replay.Behaviour, rng *rand.Rand) error {
 	return nil
 }
 
+func (s *stepper) clearJournals(inst int) {
+	svc.Take(s.curSID())
+	if hk := s.hooks[inst-1]; hk != nil {
+		hk.Take()
+	}
+}
+
+func (s *stepper) restoreCap(h *vgirpc.HttpServer) {
+	if s.capN > 0 {
+		h.SetMaxResponseBytes(bodySizeAfter(s.capN) - 1)
+	} else {
+		h.SetMaxResponseBytes(0)
+	}
+}
+
 func (s *stepper) End() { svc.Take(s.curSID()) }
 
 func (s *stepper) curSID() string { return fmt.Sprintf("%s-%d", s.sid, s.nsid) }
@@ -496,6 +511,50 @@ func (s *stepper) Step(i int, st replay.Step) (replay.Obs, error) {
 		s.addView(obs)
 		obs["__sent__"] = n
 		s.finishStream(obs, st)
+	case "UnaryCap":
+		s.nsid++
+		inst := replay.Int(a, "inst")
+		h := s.inst[inst-1]
+		sc := svc.Script{SID: s.curSID(), Out: "value"}
+		x := s.rng.Int63n(1<<50) - (1 << 49)
+		rid := fmt.Sprintf("rid-%09d", s.rng.Intn(1<<29))
+		body := httpx.InitBody("u_val", sc.Encode(), &x, vgirpc.MetaRequestID, rid)
+		h.SetMaxResponseBytes(0)
+		r0 := s.do(inst, "/u_val", "anon", body)
+		size := int64(len(r0.Body))
+		if replay.Str(a, "rel") == "over" {
+			h.SetMaxResponseBytes(size - 1)
+		} else {
+			h.SetMaxResponseBytes(size)
+		}
+		s.clearJournals(inst)
+		r := s.do(inst, "/u_val", "anon", body)
+		s.observe(obs, r, rid, true, x, false, inst)
+		s.restoreCap(h)
+	case "ExchCap":
+		s.nsid++
+		inst := replay.Int(a, "inst")
+		h := s.inst[inst-1]
+		sc := svc.Script{SID: s.curSID()}
+		h.SetMaxResponseBytes(0)
+		ri := s.do(inst, "/exch/init", "anon", httpx.InitBody("exch", sc.Encode(), nil))
+		cur, call := ri.Tokens()
+		turn := func(n int, cursor string) *httpx.Resp {
+			return s.do(inst, "/exch/exchange", "anon", httpx.Stream(svc.InSchema, s.inputCols("eq", n), 1,
+				vgirpc.MetaStreamState, cursor, vgirpc.MetaCallState, call))
+		}
+		r1 := turn(1, cur)
+		size := int64(len(r1.Body))
+		cur2, _ := r1.Tokens()
+		if replay.Str(a, "rel") == "over" {
+			h.SetMaxResponseBytes(size - 16)
+		} else {
+			h.SetMaxResponseBytes(size + 64)
+		}
+		s.clearJournals(inst)
+		r := turn(2, cur2)
+		s.observe(obs, r, "", false, 0, false, inst)
+		s.restoreCap(h)
 	default:
 		return nil, fmt.Errorf("unknown action %q", st.A)
 	}
